@@ -48,13 +48,16 @@ func newChunkQueue(snapshot *snapshot, tempDir string) (*chunkQueue, error) {
 	if snapshot.Chunks == 0 {
 		return nil, errors.New("snapshot has no chunks")
 	}
+	// The chunk count is what a peer advertised; the queue is built before the
+	// application has seen (or any light client has verified) the snapshot, so
+	// the maps must not be sized by it: they grow as chunks are used.
 	return &chunkQueue{
 		snapshot:       snapshot,
 		dir:            dir,
-		chunkFiles:     make(map[uint32]string, snapshot.Chunks),
-		chunkSenders:   make(map[uint32]p2p.ID, snapshot.Chunks),
-		chunkAllocated: make(map[uint32]bool, snapshot.Chunks),
-		chunkReturned:  make(map[uint32]bool, snapshot.Chunks),
+		chunkFiles:     make(map[uint32]string),
+		chunkSenders:   make(map[uint32]p2p.ID),
+		chunkAllocated: make(map[uint32]bool),
+		chunkReturned:  make(map[uint32]bool),
 		waiters:        make(map[uint32][]chan<- uint32),
 	}, nil
 }
